@@ -91,7 +91,8 @@ def shard_fn(shard, nshards, seed, tier, exe, ntrees, ndoubles):
             # a node that had a custom serializer for a while and was reset to the default one must serialize like any other node
             path, t = random_path(rng, toks)
             if t[0] not in "nD":
-                extra = ["NAV 0 5 " + " ".join(path), "SS 5 0 1", "SS 5 0 0"]
+                # (the reset may carry a userdata pointer of the caller's: the default serializers must ignore it)
+                extra = ["NAV 0 5 " + " ".join(path), "SS 5 0 1", "SS 5 %d 0" % rng.choice([0, 777, 12345678])]
                 sh.count("trees.node_with_serializer_reset.%s" % {"[": "array", "{": "object", "i": "int", "u": "int", "d": "double", "s": "string", "t": "boolean", "f": "boolean"}.get(t[0], t[0]))
         elif rng.random() < 0.2:
             # the tree reaches its value through in-place mutation (set_int/set_double/set_boolean/set_string, array add, object add / delete+re-add):
